@@ -2,6 +2,8 @@ package rules
 
 import (
 	"fmt"
+	"sort"
+	"strings"
 
 	"golang.org/x/tools/go/ssa"
 
@@ -32,6 +34,7 @@ func runC13(c *Ctx) {
 	// a compressed message reaches the decompressor through the suffixed reader
 	c12Suffixed(c)
 	writerMethodRules(c, "C13")
+	protocolErrorKindRules(c, "C13")
 }
 
 func c13RsvLayout(c *Ctx) {
@@ -273,4 +276,63 @@ func c13Bits(c *Ctx) {
 		}
 		return ""
 	})
+}
+
+// protocolErrorKindRules: the refusals the RFC classes as protocol errors are
+// values of type ws.ProtocolError (that is how a caller tells a peer's protocol
+// violation, to be answered with close code 1002, from an I/O failure). Checked
+// on the initialisers: the value stored into each of these package variables is
+// an interface made from a ws.ProtocolError.
+func protocolErrorKindRules(c *Ctx, prop string) {
+	rule := prop + ".protocol-error-kind"
+	c.R.Rule(rule, 10, "ErrProtocol* and ErrUnexpectedCompressionBit are ws.ProtocolError values")
+	pe := c.P.NamedType(ws, "ProtocolError")
+	if pe == nil {
+		c.R.Unknown(rule, rule+"/anchor:ws.ProtocolError", "-", "type does not resolve")
+		return
+	}
+	type gv struct{ pkg, name string }
+	var want []gv
+	if sp := c.P.SSA[ws]; sp != nil {
+		for name, m := range sp.Members {
+			if _, ok := m.(*ssa.Global); ok && strings.HasPrefix(name, "ErrProtocol") {
+				want = append(want, gv{ws, name})
+			}
+		}
+	}
+	want = append(want, gv{wsflate, "ErrUnexpectedCompressionBit"})
+	sort.Slice(want, func(i, j int) bool { return want[i].name < want[j].name })
+	for _, w := range want {
+		g := c.P.Global(w.pkg, w.name)
+		key := rule + "/" + shortPkg(w.pkg) + "." + w.name
+		if g == nil {
+			c.R.Unknown(rule, key, "-", "variable does not resolve")
+			continue
+		}
+		kind := "never initialised"
+		// go/ssa keeps no referrers for globals: look at the stores of the package initialiser
+		if sp := c.P.SSA[w.pkg]; sp != nil {
+			if init := sp.Func("init"); init != nil {
+				for _, b := range init.Blocks {
+					for _, in := range b.Instrs {
+						st, ok := in.(*ssa.Store)
+						if !ok || st.Addr != ssa.Value(g) {
+							continue
+						}
+						if mi, ok := st.Val.(*ssa.MakeInterface); ok {
+							kind = mi.X.Type().String()
+						} else {
+							// a variable of the concrete type, or an interface whose dynamic type is not visible
+							kind = st.Val.Type().String()
+						}
+					}
+				}
+			}
+		}
+		if kind == pe.String() {
+			c.R.OK(rule, key, c.P.Pos(g.Pos()), "initialised with a ws.ProtocolError")
+		} else {
+			c.R.Fail(rule, key, c.P.Pos(g.Pos()), "this refusal is no longer a ws.ProtocolError (dynamic type "+kind+"): callers that answer protocol violations with close code 1002 take it for another kind of failure")
+		}
+	}
 }
